@@ -162,6 +162,14 @@ void FileHeader::getFileHeader(u8_t *iv)
     fwrite(&htype, 1, 1, out);
     fwrite(padding, 1, PADDING, out);
     for (int i = 0; i < num; ++i)
+    WV_LOOP(__CPROVER_assigns(i, WV_FILE_WSTATE(this->out))
+            __CPROVER_loop_invariant(0 <= i && i <= this->num && this->out->open && this->out->pos == __CPROVER_loop_entry(this->out->pos) + 20ull * i)
+            __CPROVER_loop_invariant(this->out->nwrites == __CPROVER_loop_entry(this->out->nwrites) + i && this->out->nbytes == __CPROVER_loop_entry(this->out->nbytes) + 20ull * i)
+            __CPROVER_loop_invariant(this->out->len < (1ull << 51) && this->out->pos < (1ull << 51))
+            __CPROVER_loop_invariant((wv_wP >= __CPROVER_loop_entry(this->out->pos) && wv_wP < __CPROVER_loop_entry(this->out->pos) + 20ull * i) ?
+                                     (wv_wcount == __CPROVER_loop_entry(wv_wcount) + 1 && wv_wbyte == iv[wv_wP - __CPROVER_loop_entry(this->out->pos)]) :
+                                     (wv_wcount == __CPROVER_loop_entry(wv_wcount) && wv_wbyte == __CPROVER_loop_entry(wv_wbyte)))
+            __CPROVER_decreases(this->num - i))
         fwrite(iv + (20 * i), 1, 20, out);
 }
 /*
